@@ -189,3 +189,138 @@ Proof.
   exists I. split; [exact HT|]. split; [exact Hnd|]. split; [exact Hcl|].
   intros sh Hin. destruct (Hsh sh Hin) as (_ & A & B & _). auto.
 Qed.
+
+(** ** A1. the references of the profile resolve, for every graph whose
+    datatypes / class IRIs do not start with the label sentinel '%' *)
+From Shexer Require Import Proofs.ShexBasics Proofs.ClosureLemmas.
+
+(** a shape-typed key contributed by a triple is a label of a class listed
+    for some tracked node *)
+Lemma contrib_shape_key dir tau (I : insts) t i p k :
+  sentinel_free tau t = true -> In k (contrib dir tau I t i p) -> is_shape_type k = true ->
+  exists id cs cl, In (id, cs) I /\ In cl cs /\ k = shape_name c_SHAPES_DEFAULT_NAMESPACE cl.
+Proof.
+  unfold sentinel_free. intros Hs Hk Hty. apply andb_true_iff in Hs. destruct Hs as [_ Ho].
+  assert (Hlab : forall id, In k (shape_labels I id) ->
+            exists id cs cl, In (id, cs) I /\ In cl cs /\ k = shape_name c_SHAPES_DEFAULT_NAMESPACE cl).
+  { intros id H. unfold shape_labels, classes_of in H. destruct (dget I id) as [cs|] eqn:E; [|destruct H].
+    apply in_map_iff in H. destruct H as [cl [<- Hcl]]. exists id, cs, cl.
+    split; [apply dget_In; exact E|]. auto. }
+  assert (Hno : forall s, no_sentinel s = true -> k = s -> False).
+  { intros s Hn ->. unfold no_sentinel in Hn. unfold is_shape_type in Hty. rewrite Hty in Hn. discriminate. }
+  destruct dir; cbn [contrib] in Hk.
+  - destruct (str_eqb (nid (ts t)) i && str_eqb (tp t) p); [|destruct Hk].
+    unfold keys_direct in Hk. destruct (to t) as [o|ct dt].
+    + destruct (str_eqb (tp t) tau).
+      * apply andb_true_iff in Ho. destruct Ho as [Ho _].
+        destruct Hk as [Hk|Hk]; [exfalso; exact (Hno _ Ho (eq_sym Hk))|].
+        destruct (_ || _); [exact (Hlab _ Hk) | destruct Hk].
+      * destruct Hk as [Hk|Hk]; [|exact (Hlab _ Hk)]. exfalso.
+        apply (Hno (elem_type o)); [|symmetry; exact Hk]. unfold elem_type. destruct (nk o); reflexivity.
+    + destruct (str_eqb (tp t) tau); [destruct Hk|]. destruct Hk as [Hk|[]].
+      exfalso. exact (Hno _ Ho (eq_sym Hk)).
+  - destruct (to t) as [o|ct dt]; [|destruct Hk].
+    destruct (str_eqb (nid o) i && str_eqb (tp t) p); [|destruct Hk].
+    unfold keys_inverse in Hk. destruct (str_eqb (tp t) tau).
+    + apply andb_true_iff in Ho. destruct Ho as [_ Ho].
+      destruct Hk as [Hk|Hk]; [exfalso; exact (Hno _ Ho (eq_sym Hk))|].
+      destruct (str_eqb _ _); [exact (Hlab _ Hk) | destruct Hk].
+    + destruct Hk as [Hk|Hk].
+      * exfalso. apply (Hno (elem_type (ts t))); [|symmetry; exact Hk].
+        unfold elem_type. destruct (nk (ts t)); reflexivity.
+      * destruct (nk (ts t)); [exact (Hlab _ Hk) | destruct Hk].
+Qed.
+
+Lemma occ_pos_shape_key dir tau (I : insts) G c p k card :
+  forallb (sentinel_free tau) G = true -> 0 < occ dir tau I G c p k card -> is_shape_type k = true ->
+  exists id cs cl, In (id, cs) I /\ In cl cs /\ k = shape_name c_SHAPES_DEFAULT_NAMESPACE cl.
+Proof.
+  intros Hg Hpos Hty.
+  destruct (proj1 (occ_pos_iff dir tau I G c p k) (ex_intro _ card Hpos)) as (i & cs & _ & _ & Hc).
+  unfold cnt in Hc. apply sumN_pos_ex in Hc. destruct Hc as [x [Hx Hx0]].
+  apply in_map_iff in Hx. destruct Hx as [t [<- Ht]].
+  rewrite count_in_count_str in Hx0. apply count_str_pos in Hx0.
+  rewrite forallb_forall in Hg. exact (contrib_shape_key dir tau I t i p k (Hg t Ht) Hx0 Hty).
+Qed.
+
+(** every stored type key of the final profile has a positive count *)
+Lemma final_key_occ cfg (I : insts) G P C ID c e p m k cd :
+  NoDup (dkeys I) -> profile cfg I G = inl (P, C, ID) ->
+  In (c, e) P -> In (k, cd) m ->
+  (In (p, m) (c_direct e) -> exists card, 0 < occ Direct (p_tau cfg) I G c p k card) /\
+  (In (p, m) (c_inverse e) -> exists card, 0 < occ Inverse (p_tau cfg) I G c p k card).
+Proof.
+  intros NDI HP Hce Hk. rewrite profile_result in HP.
+  destruct (annotate_all (p_tau cfg) (p_inverse cfg) G (adapt I)) as [ID'|err] eqn:HA; [|discriminate].
+  destruct (raw_profile cfg I ID') as [P1 C0] eqn:HR. injection HP as HP1 _ _.
+  destruct (profile_counts_char cfg I G ID' P1 C0 NDI HA HR) as (_ & _ & NDP1 & _ & HB).
+  pose proof (profile_entries_char cfg I G ID' P1 C0 NDI HA HR) as HE.
+  pose proof (raw_profile_wf cfg I ID' P1 C0 HR) as Hwf.
+  set (ks := if p_remove_empty cfg then shapes_to_remove (p_inverse cfg) (orig_labels cfg) P1 else []).
+  assert (EP : P = remove_iteration ks P1).
+  { unfold ks. destruct (p_remove_empty cfg); [symmetry; assumption|]. rewrite remove_iteration_nil. symmetry. assumption. }
+  rewrite EP in Hce. apply In_remove_iteration in Hce. destruct Hce as [e1 [Hce1 [-> _]]].
+  pose proof (In_dget_NoDup P1 c e1 NDP1 Hce1) as He1.
+  destruct (HE c e1 He1) as [_ [ED [_ EI]]].
+  destruct (cprofile_wf_dget P1 c e1 Hwf He1) as (_ & NEd & _ & NEi).
+  assert (Hne : forall d m1, pdict_ne d -> In (p, m1) d -> In (k, cd) m1 -> exists card n, In (card, n) cd).
+  { intros d m1 Hd H1 H2. unfold pdict_ne in Hd. rewrite Forall_forall in Hd. destruct (Hd _ H1) as [_ Hm].
+    cbn [snd] in Hm. rewrite Forall_forall in Hm. specialize (Hm _ H2). cbn [snd] in Hm.
+    destruct cd as [|[card n] r]; [congruence|]. exists card, n. left. reflexivity. }
+  split.
+  - intros Hp. cbn [clean_entry c_direct] in Hp.
+    destruct (In_remove_keys_pdict _ _ _ _ _ _ Hp Hk) as [m1 [Hp1 [Hk1 _]]].
+    destruct (Hne _ _ NEd Hp1 Hk1) as (card & n & Hc).
+    destruct (ED p m1 k cd card n Hp1 Hk1 Hc) as [-> Hpos]. eauto.
+  - intros Hp. cbn [clean_entry c_inverse] in Hp.
+    destruct (In_remove_keys_pdict _ _ _ _ _ _ Hp Hk) as [m1 [Hp1 [Hk1 _]]].
+    destruct (Hne _ _ NEi Hp1 Hk1) as (card & n & Hc).
+    destruct (p_inverse cfg) eqn:Ei.
+    + destruct (EI eq_refl) as [EI1 _]. destruct (EI1 p m1 k cd card n Hp1 Hk1 Hc) as [-> Hpos]. eauto.
+    + destruct (HB c e1 He1) as (_ & _ & RI). rewrite RI in Hp1. destruct Hp1.
+Qed.
+
+(** a class listed for a tracked node is a class key of the final profile:
+    it has an instance, hence a feature, hence the cleaning keeps it *)
+Lemma listed_class_kept c g I P C ID id cs cl :
+  track (r_tau c) (mode_of c) (r_cap c) g = inl I ->
+  profile (pcfg_of c) I g = inl (P, C, ID) ->
+  In (id, cs) I -> In cl cs -> In cl (dkeys P).
+Proof.
+  intros HT HP Hi Hcl.
+  pose proof (proj1 (track_insts_ok _ _ _ _ _ HT)) as Hn.
+  destruct (profile_kept_char (pcfg_of c) I g P C ID Hn HP) as [Hk _]. apply Hk.
+  assert (Hcc : In cl (List.concat (map snd I))) by exact (In_concat_map_snd I id cs cl Hi Hcl).
+  split.
+  - unfold class_keys. rewrite uniq_first_first_occ. apply In_first_occ. apply in_or_app. right. exact Hcc.
+  - right. right. apply (tracked_has_feat_iff c g I cl HT).
+    rewrite class_count_concat. apply count_str_pos. exact Hcc.
+Qed.
+
+Theorem run_profile_refs_closed c g I P C ID :
+  forallb (sentinel_free (r_tau c)) g = true ->
+  track (r_tau c) (mode_of c) (r_cap c) g = inl I ->
+  profile (pcfg_of c) I g = inl (P, C, ID) ->
+  profile_refs_closed P.
+Proof.
+  intros Hfree HT HP cl e k Hce (p & m & cd & Hpm & Hk) Hty.
+  pose proof (proj1 (track_insts_ok _ _ _ _ _ HT)) as Hn.
+  destruct (final_key_occ (pcfg_of c) I g P C ID cl e p m k cd Hn HP Hce Hk) as [HD HI].
+  assert (Hocc : exists dir card, 0 < occ dir (r_tau c) I g cl p k card).
+  { destruct Hpm as [H|H]; [destruct (HD H) as [card Hc]; exists Direct, card; exact Hc
+                           | destruct (HI H) as [card Hc]; exists Inverse, card; exact Hc]. }
+  destruct Hocc as (dir & card & Hpos).
+  destruct (occ_pos_shape_key dir (r_tau c) I g cl p k card Hfree Hpos Hty) as (id & cs & c' & Hi & Hc' & ->).
+  exists c'. split; [|reflexivity]. exact (listed_class_kept c g I P C ID id cs c' HT HP Hi Hc').
+Qed.
+
+(** A1 at run level: with the default shapes namespace the references of the
+    returned shapes resolve *)
+Theorem run_refs_closed fa c thr g ns shapes :
+  forallb (sentinel_free (r_tau c)) g = true -> r_shapes_ns c = c_SHAPES_DEFAULT_NAMESPACE ->
+  run_shapes fa c thr g = inl (ns, shapes) -> refs_closed shapes.
+Proof.
+  intros Hfree Hns H. apply run_shapes_decompose in H. destruct H as (I & P & C & ID & _ & HT & HP & HS).
+  apply (shex_refs_closed fa (scfg_of c ns) thr P C shapes); [|exact Hns|exact HS].
+  exact (run_profile_refs_closed c g I P C ID Hfree HT HP).
+Qed.
